@@ -106,6 +106,11 @@ def gen(rng, tier):
         cases.append(dict(c, kind="ev"))
         for f in range(12 if thorough else 8):
             cases.append(dict(c, kind="ev", fault=f))
+    # directed: multi-argument built-ins over every pairing of plain / secret / unknown arguments
+    for j, c in enumerate(G.flag_matrix_worlds()):
+        for mode in (False, True):
+            cases.append(dict(c, kind="ev", check=mode, show=True))
+        cases.append(dict(c, kind="ev", check=False, show=True, fault=0))
     # the recorded stack-overflow witness shape, with variations
     for k in range(6):
         envs = {"e0": {"imports": [], "values": [("c", ("sym", [("name", "nope")]))]},
